@@ -11,11 +11,22 @@ def ground(e, lo, hi, cache=None, budget=None):
         budget = [200000]
     k = e.get_id()
     if k in cache:
-        return cache[k]
+        return cache[k][1]
     budget[0] -= 1
     if budget[0] < 0:
         raise MemoryError('grounding budget exceeded')
-    if z3.is_quantifier(e):
+    if z3.is_quantifier(e) and e.is_lambda():
+        r = e      # an array term, not a formula (consumed by the hash_seq case below)
+    elif z3.is_app(e) and e.decl().name() == 'hash_seq':
+        # hash of a tuple of symbolic length (lib.hash_of): the function is uninterpreted, so any interpretation
+        # gives genuine models; a positional polynomial over the first cells lets arrays given by lambdas be
+        # evaluated (sizes are at most hi in this search)
+        terms = [ground(e.arg(0), lo, hi, cache, budget) * 7919 + 13]
+        for k in range(0, hi + 1):
+            sel = z3.simplify(z3.Select(e.arg(1), z3.IntVal(k)))
+            terms.append(ground(sel, lo, hi, cache, budget) * (31 ** (k + 1)))
+        r = z3.Sum(terms)
+    elif z3.is_quantifier(e):
         n = e.num_vars()
         if not all(e.var_sort(i) == z3.IntSort() for i in range(n)):
             r = e
@@ -33,5 +44,5 @@ def ground(e, lo, hi, cache=None, budget=None):
         r = e.decl()(*ch)
     else:
         r = e
-    cache[k] = r
+    cache[k] = (e, r)      # keeps e alive: z3 recycles the ids of collected ASTs
     return r
